@@ -82,4 +82,64 @@ Proof.
     destruct (cond_true g re1 m [] Hc Hg) as (x & Ex & Tx).
     rewrite exec_return, eval_if, Ex. cbn [bind]. rewrite Tx, eval_unimpl. reflexivity.
 Qed.
+
+(** ** the gate anywhere in an `or` chain: the line never yields a VALUE while the gate is affirmative
+    (it answers not-implemented, or it is still waiting for an earlier disjunct - in both cases the return is not reported solved) *)
+Fixpoint chain (g:string) (e:expr) : bool :=
+  match e with
+  | EOr a b => chain g a || chain g b
+  | _ => reads_gate g e
+  end.
+
+Definition gate_shape_chain (g:string) (body:list stmt) : nat :=
+  match body with
+  | [SReturn (EIf c EUnimpl _)] => if chain g c then 1%nat else 0%nat
+  | SIf c [SExpr EUnimpl] [] :: _ => if chain g c then 3%nat else 0%nat
+  | _ => 0%nat
+  end.
+
+Lemma chain_truthy g : forall e, chain g e = true ->
+  slookup (qualify c g) (x_inps c) = Some (PBool true) ->
+  forall m r val, eval c m e r = RVal val -> truthy val = true.
+Proof.
+  intros e. induction e; intros Hc Hg m r val Ev; cbn [chain] in Hc;
+    try (apply reads_gate_eq in Hc; try discriminate Hc).
+  - (* a read: the gate itself *)
+    inversion Hc; subst. destruct m as [|m]; [discriminate|]. rewrite eval_read_lit in Ev. unfold do_read in Ev. rewrite Hg in Ev.
+    inversion Ev; subst. reflexivity.
+  - (* or *)
+    destruct m as [|m]; [discriminate|]. rewrite eval_or in Ev.
+    destruct (eval c m e1 r) as [xa| | | |] eqn:Ea; cbn [bind] in Ev; try discriminate.
+    destruct (truthy xa) eqn:Ta.
+    + inversion Ev; subst. exact Ta.
+    + apply orb_true_iff in Hc as [Hc|Hc].
+      * rewrite (IHe1 Hc Hg m r xa Ea) in Ta. discriminate.
+      * exact (IHe2 Hc Hg m r val Ev).
+Qed.
+
+Theorem gate_blocks (l:line) g fuel :
+  gate_shape_chain g (l_body l) <> 0%nat ->
+  slookup (qualify c g) (x_inps c) = Some (PBool true) ->
+  forall v, line_value c fuel l <> RVal v.
+Proof.
+  intros Hs Hg v Hv. unfold line_value in Hv.
+  unfold gate_shape_chain in Hs.
+  destruct (l_body l) as [|s rest]; [contradiction|].
+  destruct s as [ | | |cnd tb fb| |re| | | |]; try contradiction.
+  - destruct tb as [|s1 tl]; try contradiction.
+    destruct s1 as [ | | | | | |ex| | |]; try contradiction.
+    destruct ex; try contradiction. destruct tl; try contradiction. destruct fb; try contradiction.
+    destruct (chain g cnd) eqn:Hc; [|contradiction].
+    destruct fuel as [|m]; [discriminate|]. rewrite exec_if_first in Hv.
+    destruct (eval c m cnd []) as [x| | | |] eqn:Ec; cbn [bind] in Hv; try discriminate.
+    rewrite (chain_truthy g cnd Hc Hg m [] x Ec) in Hv.
+    destruct m as [|[|m]]; try discriminate.
+  - destruct re; try contradiction. destruct re2; try contradiction. destruct rest; [|contradiction].
+    destruct (chain g re1) eqn:Hc; [|contradiction].
+    destruct fuel as [|m]; [discriminate|]. rewrite exec_return in Hv.
+    destruct m as [|m]; [discriminate|]. rewrite eval_if in Hv.
+    destruct (eval c m re1 []) as [x| | | |] eqn:Ec; cbn [bind] in Hv; try discriminate.
+    rewrite (chain_truthy g re1 Hc Hg m [] x Ec) in Hv.
+    destruct m as [|m]; [discriminate|]. rewrite eval_unimpl in Hv. discriminate.
+Qed.
 End G.
